@@ -237,7 +237,32 @@ def run_auto_small(unit, rng, ctx):
     ctx.case(signature(m, site_frac, li), via > 0 or bool((states >= 0).any() and (states < 0).any()), sample={'lattice': kind, 'mode': 'auto_small', 'vibration_amplitude': vib, 'expected_radius': r_exp, 'd_min': dmin, 'T': T, 'atoms': nA})
 
 
+def run_many(unit, rng, ctx):
+    """Large index ranges: more than 255 sites and / or atoms."""
+    ns = int(rng.choice([300, 1100, 2100]))
+    na = int(rng.integers(258, 300)) if rng.integers(2) else int(rng.integers(1, 4))
+    f = float(rng.choice([1.0, 0.5]))
+    sys_ = gen.make_many_site_system(rng, ns, n_atoms=na, T=8 if na > 200 else 30, inner_fraction=f, p_move=0.4)
+    traj = sys_.trajectory()
+    what = f'{sys_.kind} many-site system sites={ns} atoms={na} f={f}'
+    wit = {'matrix': sys_.matrix, 'n_sites': ns, 'n_atoms': na}
+    with warnings.catch_warnings():
+        warnings.simplefilter('ignore')
+        tr = traj.transitions_between_sites(sites=sys_.sites_structure(), floating_specie='Li', site_radius=sys_.site_radius_arg, site_inner_fraction=f)
+    pos = np.mod(sys_.coords[:, :na], 1)
+    pos[pos == 1] = 0
+    n_bad, n_known, via = check_assignment(ctx, what, sys_.matrix, pos, sys_.site_frac, sys_.radii, f, np.asarray(tr.states), np.asarray(tr.inner_states), True, float(sys_.radii.max()), wit)
+    if n_bad == 0 and n_known == 0:
+        ctx.check(np.array_equal(tr.states, sys_.states_true) and np.array_equal(tr.inner_states, sys_.inner_true), f'{what}: margin-controlled atoms are not assigned to the sites they were placed in', wit)
+    ctx.count('many_site_or_many_atom_systems')
+    ctx.count('atom_frames_checked', int(np.asarray(tr.states).size))
+    ctx.count('assigned_through_lattice_image', via)
+    ctx.case(signature(sys_.matrix, sys_.site_frac[:50], pos), via > 0, sample={'mode': 'many', 'sites': ns, 'atoms': na, 'inner_fraction': f, 'lattice': sys_.kind})
+
+
 def run_unit(unit, rng, ctx):
+    if unit['i'] % 60 == 59:
+        return run_many(unit, rng, ctx)
     mode = str(rng.choice(['float', 'dict', 'auto', 'overlap', 'auto_small'], p=[0.33, 0.33, 0.14, 0.1, 0.1]))
     if mode == 'auto_small':
         return run_auto_small(unit, rng, ctx)
